@@ -51,7 +51,7 @@ pub fn piece_s(p: &Piece) -> String {
 
 /// Execute one piece on `obj` over `inp`; returns the output bytes.
 pub fn run_piece(obj: &mut dyn BlockMode, p: &Piece, inp: &[u8], prefill: &[u8]) -> Result<Vec<u8>, Fail> {
-    let mut out = if p.kind == Kind::InPlace { inp.to_vec() } else { prefill[..inp.len()].to_vec() };
+    let mut out = if p.kind.in_place() { inp.to_vec() } else { prefill[..inp.len()].to_vec() };
     if p.single {
         obj.one(p.kind, inp, &mut out);
     } else {
